@@ -84,6 +84,7 @@ type FuncSpec struct {
 	Params    []string
 	Requires  []Clause
 	Ensures   []Clause
+	Assumes   []Clause // postconditions assumed at call sites and NOT proved (each is listed as an assumption)
 	Defines   []Clause // history-predicate definitions: assumed at call sites, not proved (listed)
 	Effects   []GhostEffect // ghost assignments executed at exit (history variables)
 	Unreachable []string    // return sites declared dead under the contract assumptions (must be vacuous)
@@ -581,7 +582,7 @@ func (p *parser) parsePrimary() (Expr, error) {
 var clauseKeywords = map[string]bool{
 	"func": true, "iface": true, "field": true, "pure": true, "predicate": true, "ghost": true, "axiom": true,
 	"lockinv": true, "protected": true, "chaninv": true, "atomic": true,
-	"requires": true, "ensures": true, "defines": true, "modifies": true, "decreases": true, "loop": true, "invariant": true,
+	"requires": true, "ensures": true, "defines": true, "assumes": true, "modifies": true, "decreases": true, "loop": true, "invariant": true,
 	"effect": true, "unreachable": true, "inline": true, "maypanic": true, "nopanic": true, "trusted": true, "stepinv": true, "props": true, "function": true,
 }
 
@@ -639,7 +640,7 @@ func parseSpecFile(path, pkg string) (*SpecFile, error) {
 			cur = &FuncSpec{Kind: kw, Pkg: pkg, Target: target, Params: params, Loops: map[int]*LoopSpec{}, File: base, Line: l.line}
 			curLoop = nil
 			sf.Funcs = append(sf.Funcs, cur)
-		case "requires", "ensures", "invariant", "decreases", "stepinv", "defines":
+		case "requires", "ensures", "invariant", "decreases", "stepinv", "defines", "assumes":
 			tags, name, exprSrc := splitTagsName(rest)
 			if kw == "decreases" {
 				// lexicographic measure: comma separated list of terms
@@ -671,6 +672,8 @@ func parseSpecFile(path, pkg string) (*SpecFile, error) {
 				cur.Ensures = append(cur.Ensures, cl)
 			case "stepinv":
 				cur.StepInvs = append(cur.StepInvs, cl)
+			case "assumes":
+				cur.Assumes = append(cur.Assumes, cl)
 			case "defines":
 				// must have the shape  cond ==> pred(args)  with pred an uninterpreted predicate
 				b, ok := e.(*EBinary)
